@@ -87,8 +87,13 @@ func (x *FnIndex) caseConsts(b *ssa.BasicBlock) (tag ssa.Value, consts []int64) 
 		var ks []int64
 		all := true
 		for _, p := range cur.Preds {
+			to := cur
+			// an empty block on the way (the `true` arm of a short-circuit `a == K1 || a == K2` that was threaded) is looked through
+			for len(p.Preds) == 1 && len(p.Succs) == 1 && onlyJump(p) {
+				to, p = p, p.Preds[0]
+			}
 			iff, ok := p.Instrs[len(p.Instrs)-1].(*ssa.If)
-			if !ok || p.Succs[0] != cur {
+			if !ok || p.Succs[0] != to || p.Succs[1] == to {
 				all = false
 				break
 			}
@@ -126,6 +131,18 @@ func (x *FnIndex) caseConsts(b *ssa.BasicBlock) (tag ssa.Value, consts []int64) 
 		}
 	}
 	return nil, nil
+}
+
+// onlyJump: the block does nothing but go on (debug references apart).
+func onlyJump(b *ssa.BasicBlock) bool {
+	for _, in := range b.Instrs {
+		switch in.(type) {
+		case *ssa.Jump, *ssa.DebugRef:
+		default:
+			return false
+		}
+	}
+	return true
 }
 
 // accessorOf: v is [T](recv.Acc()) — returns accessor name, receiver, the converted-to type.
